@@ -78,3 +78,9 @@ def probes(case, layers, view, img):
     if cfg["block"] < 4096:
         p["vhd.block_lt_4k"] = 1
     return p
+
+
+def req_meta_bytes(cfg, img, off, ln):
+    if cfg["fixed"]:
+        return 0
+    return 8 * (ln // cfg["block"] + 2) + 2048
